@@ -1,8 +1,89 @@
 import Driver.Proto
-/-! driver handlers for property C19 (ops `model.*`, `spec.*`, `trig.*`) -/
+import Driver.C20
+import Verif.Model.Cli
+/-! driver handlers for property C19 (ops `model.c19.*`, `trig.c19.*`) -/
 namespace Verif.Driver.C19
-open Verif Verif.Driver
+open Verif Verif.Driver Verif.Model.CliFs Verif.Model.Cli
 
-def handlers : List (String × Handler) := []
+/-- `model.c19.path fn a [b]` → the lexical path function `fn` ∈ clean dir base ext rel join norm -/
+def pathH : Handler := fun args => do
+  let fn ← argBytes args 0
+  let a ← argBytes args 1
+  let b ← (if args.length > 2 then argBytes args 2 else .ok [])
+  if fn == strBytes "clean" then .ok (cleanB a)
+  else if fn == strBytes "dir" then .ok (render (dirRaw a))
+  else if fn == strBytes "base" then .ok (baseRaw a)
+  else if fn == strBytes "ext" then .ok (extRaw a)
+  else if fn == strBytes "norm" then .ok (normInput a)
+  else if fn == strBytes "rel" then
+    match relP (cleanP a) (cleanP b) with
+    | some r => .ok (render r)
+    | none => .ok (strBytes "!error")
+  else if fn == strBytes "join" then
+    .ok (if a.isEmpty then (if b.isEmpty then [] else cleanB b) else if b.isEmpty then cleanB a
+         else render (joinP (cleanP a) ⟨false, cleanAux false (b.splitOn slashB) []⟩))
+  else .error "unknown path function"
+
+structure LibRow where
+  mime : Bytes
+  input : Bytes
+  ok : Bool
+  out : Bytes
+
+def decodeLib (gs : List (List Bytes)) : Except String (List LibRow) :=
+  gs.mapM fun g =>
+    match g with
+    | [m, i, o, out] => .ok ⟨m, i, o == [49], out⟩
+    | _ => .error "bad lib row"
+
+def libOf (rows : List LibRow) (mime b : Bytes) : Option Bytes :=
+  match rows.find? (fun r => r.mime == mime && r.input == b) with
+  | some r => if r.ok then some r.out else none
+  | none => some (strBytes "!!LIB-TABLE-MISS!!")
+
+def renderTask (t : Task) : Bytes :=
+  [124].intercalate t.srcs ++ strBytes " -> " ++ t.dst ++ strBytes (if t.sync then " sync" else "") ++
+    strBytes (if t.skip then " skip" else "") ++ strBytes " root=" ++ t.root
+
+/-- `model.c19.effects files dirs inputs output flags typ nMatch filterSigns pmTable stdin libTable`
+    → `[exit, stdout, nTasks, task…, path, content, …]`; flags = recursive, hidden, sync, bundle -/
+def effectsH : Handler := fun args => do
+  let files ← C20.decodeFiles (← argGroups args 0)
+  let dirs ← argList args 1
+  let inputs ← argList args 2
+  let output ← argBytes args 3
+  let fl ← argList args 4
+  let typ ← argBytes args 5
+  let nMatch ← argNat args 6
+  let signs ← argList args 7
+  let table ← argGroups args 8
+  let stdin ← argBytes args 9
+  let lib ← decodeLib (← argGroups args 10)
+  let pm : Nat → Bytes → Bool := fun i s => (table[i]?.getD []).contains s
+  let inv : Inv := {
+    inputs := inputs, output := output, recursive := C20.flagAt fl 0, hidden := C20.flagAt fl 1,
+    sync := C20.flagAt fl 2, bundle := C20.flagAt fl 3, typ := typ,
+    matchPats := List.range nMatch,
+    filters := signs.zipIdx.map (fun (s, i) => (s == [43], nMatch + i)),
+    stdin := stdin }
+  let r := effects pm (libOf lib) inv { files := files, dirs := dirs }
+  .ok (listReply ([natBytes r.exit, r.stdout, natBytes r.tasks.length] ++ r.tasks.map renderTask ++
+    r.fs.files.foldr (fun (p, c) acc => p :: c :: acc) []))
+
+/-- `model.c19.readall files sep schedule` (schedule: `n:k` pairs as a list of `n,k` items flattened)
+    → `[eof, chunk…]`: the bytes delivered by each `Read` call -/
+def readallH : Handler := fun args => do
+  let files ← argList args 0
+  let sep ← argBytes args 1
+  let nums ← argList args 2
+  let ns := nums.filterMap (fun b => (parseIntChars (bytesToChars b)).map Int.toNat)
+  let rec pairs : List Nat → List (Nat × Nat)
+    | a :: b :: r => (a, b) :: pairs r
+    | _ => []
+  let (cs, eof) := readChunks (pairs ns) (newCR files sep)
+  .ok (listReply (boolBytes eof :: cs))
+
+def handlers : List (String × Handler) :=
+  [("model.c19.path", pathH), ("model.c19.effects", effectsH), ("model.c19.readall", readallH)]
 
 end Verif.Driver.C19
